@@ -26,6 +26,7 @@ type KVStore struct {
 	Entries []*kvEntry
 	Writes  int
 	Reads   int
+	before  map[[2]*kvEntry]bool // iteration order decided so far (a strict order, fixed for the whole run)
 }
 
 type kvEntry struct {
@@ -362,19 +363,44 @@ func (e *Exec) makeIter(ref *StoreRef, extra []KItem) Value {
 			sel = append(sel, en)
 		}
 	}
-	// symbolic order: fork over permutations
+	// symbolic order: an arbitrary strict total order on keys, but the *same* order every time
+	// the store is iterated in this run (the real order is byte-lexicographic, hence fixed)
+	if ref.KV.before == nil {
+		ref.KV.before = map[[2]*kvEntry]bool{}
+	}
 	var ordered []*kvEntry
 	rem := sel
 	for len(rem) > 0 {
-		j := 0
-		if len(rem) > 1 && !e.Cfg.FixedIterOrder {
-			j = e.forkN(len(rem))
+		var cands []int
+		for i, x := range rem {
+			ok := true
+			for j, y := range rem {
+				if i != j && ref.KV.before[[2]*kvEntry{y, x}] {
+					ok = false
+					break
+				}
+			}
+			if ok {
+				cands = append(cands, i)
+			}
+		}
+		if len(cands) == 0 {
+			panic(engineErr("inconsistent iteration order"))
+		}
+		j := cands[0]
+		if len(cands) > 1 && !e.Cfg.FixedIterOrder {
+			j = cands[e.forkN(len(cands))]
+		}
+		for i, y := range rem {
+			if i != j {
+				ref.KV.before[[2]*kvEntry{rem[j], y}] = true
+			}
 		}
 		ordered = append(ordered, rem[j])
 		rem = append(append([]*kvEntry{}, rem[:j]...), rem[j+1:]...)
 	}
 	if len(sel) > 1 {
-		e.Notes["store iteration: order is an arbitrary permutation (real order is byte-lexicographic; order-dependent results are outside the claim)"] = true
+		e.Notes["store iteration: order is an an arbitrary strict order, fixed for the run (the real order is byte-lexicographic; results that depend on which order it is are outside the claim)"] = true
 	}
 	it := &iterData{ref: &StoreRef{KV: ref.KV, Prefix: ref.Prefix}, entries: ordered}
 	return Iface{Typ: storeMarkerType, Val: Opaque{Kind: "iter", Data: it}}
